@@ -201,3 +201,72 @@ def gen_seg(tier, seed):
         cases.append(seg_case("sb%d" % j, kb, sg, eps, par, keys))
         stats["n"]["n>=2^15"] = stats["n"].get("n>=2^15", 0) + 1
     return cases, stats
+
+# ---------------------------------------------------------------- DynamicPGMIndex histories
+def dyn_configs():
+    out = []
+    for line in open(os.path.join(ROOT, "harness", "dyn_configs.inc")):
+        m = re.match(r"D\((\w+),\s*(\w+),\s*([\w: \*]+),\s*(\d+),\s*(\d+)\)", line)
+        if m:
+            name = m.group(1)
+            kb = 64 if "64" in m.group(2) else 32
+            sg = 1 if m.group(2).startswith("int") else 0
+            vk = name.split("_")[1]
+            out.append(dict(name=name, kbits=kb, signed=sg, vkind=vk, eps=int(m.group(4)), epsrec=int(m.group(5))))
+    return out
+
+def gen_dyn(tier, seed, reject=False):
+    rng = random.Random(seed * 15485863 + 11)
+    cfgs = dyn_configs()
+    cases, stats = [], {"ops": {}, "base": {}, "bulk": {}, "len": {}}
+    count = 70 if tier == "quick" else 900
+    for j in range(count):
+        cfg = cfgs[j % len(cfgs)]
+        lo, hi = krange(cfg["kbits"], cfg["signed"])
+        base = rng.choice([2, 2, 4, 4, 8, 16, 32, 128])
+        bl = rng.choice([0, 1, 1, 2, 3]) if base <= 8 else rng.choice([0, 1])
+        il = rng.choice([0, 1, 2, 3, 4])
+        # keep the buffer small enough that merges cascade within a few hundred operations
+        if bl == 0 and rng.random() < 0.7: bl = 1
+        universe = rng.choice([12, 40, 150, 1000])
+        origin = rng.choice([lo, 0, lo + 5, hi - universe - 3]) if rng.random() < 0.3 else rng.randint(lo, hi - universe - 2)
+        origin = max(lo, min(origin, hi - universe - 2))
+        key = lambda: origin + rng.randrange(universe)
+        nbulk = rng.choice([0, 0, 1, 3, 20, 100, 400])
+        mode = rng.random()
+        if mode < 0.25: bulk = ["-"]; stats["bulk"]["none"] = stats["bulk"].get("none", 0) + 1
+        else:
+            ks = sorted(key() for _ in range(nbulk))
+            bulk = ["%d:%d" % (k, rng.randrange(60000)) for k in ks]
+            stats["bulk"]["n=%d" % nbulk] = stats["bulk"].get("n=%d" % nbulk, 0) + 1
+        nops = rng.choice([20, 60, 150, 300]) if tier == "quick" else rng.choice([50, 200, 600, 1500])
+        ops = []
+        pdel = rng.choice([0.1, 0.3, 0.5])
+        for t in range(nops):
+            r = rng.random()
+            if r < 0.55:
+                if rng.random() < pdel: ops.append("E:%d" % key()); o = "E"
+                else: ops.append("I:%d:%d" % (key(), rng.randrange(60000))); o = "I"
+            elif r < 0.67: ops.append("F:%d" % key()); o = "F"
+            elif r < 0.72: ops.append("C:%d" % key()); o = "C"
+            elif r < 0.82: ops.append("L:%d" % max(lo, rng.choice([key(), key() - 1, origin - 1, origin + universe + 1, lo]))); o = "L"
+            elif r < 0.88:
+                a, b = sorted([key(), key()]); ops.append("R:%d:%d" % (a, b)); o = "R"
+            elif r < 0.93: ops.append("T:%d" % key()); o = "T"
+            elif r < 0.96: ops.append("B"); o = "B"
+            elif r < 0.98: ops.append("S"); o = "S"
+            else: ops.append("M"); o = "M"
+            stats["ops"][o] = stats["ops"].get(o, 0) + 1
+            if reject and cfg["vkind"] == "a" and rng.random() < 0.05:
+                ops.append("I:%d:4294967295" % key()); stats["ops"]["Ireserved"] = stats["ops"].get("Ireserved", 0) + 1
+            if reject and rng.random() < 0.02:
+                a, b = sorted([key(), key() + 1]); ops.append("R:%d:%d" % (b, a)); stats["ops"]["Rrev"] = stats["ops"].get("Rrev", 0) + 1
+        ops += ["B", "S", "M"]
+        # finally erase everything in some cases so that "empty" and end-of-iteration paths are reached
+        if rng.random() < 0.2:
+            ops += ["E:%d" % (origin + i) for i in range(universe)] if universe <= 40 else []
+            ops += ["B", "S", "M", "L:%d" % origin]
+        stats["base"][base] = stats["base"].get(base, 0) + 1
+        cases.append("DYN d%d %s %d %d %s %d %d %d %d %d | %s | %s" % (j, cfg["name"], cfg["kbits"], cfg["signed"], cfg["vkind"], base, bl, il,
+                                                                   cfg["eps"], cfg["epsrec"], " ".join(bulk), " ".join(ops)))
+    return cases, stats
